@@ -1,3 +1,30 @@
 """Predicates for known findings (registered into harness.findings.PREDICATES)."""
 
 from harness.findings import predicate  # noqa: F401
+
+
+@predicate("c01_union_fixpoint_ambiguous")
+def c01_union_fixpoint_ambiguous(clause, case, detail):
+    """Root cause: first-acceptor union semantics. When an *earlier* union member captures the value
+    (its marshaller accepts v, or its unmarshaller accepts the own member's wire form) and reads it
+    non-canonically, marshal(unmarshal(T, m)) != m. The harness decides 'captured' independently
+    with member routines built on their own (case['ambiguous'])."""
+    return clause == "union-fixpoint" and case.get("ambiguous") in ("marshal-captured", "unmarshal-captured")
+
+
+@predicate("duration_float_precision")
+def duration_float_precision(clause, case, detail):
+    """Root cause: pendulum.parse builds a Duration through float seconds. (a) a round trip differs
+    only at timedelta leaves >= 2**32 s by float64 rounding (diagnosed by the harness:
+    case['diag']); (b) text within float rounding of timedelta.max makes pendulum overflow."""
+    if case.get("diag") == "duration-float-precision" and clause in ("round-trip", "text-round-trip", "wire-round-trip", "decode-encode"):
+        return True
+    if "OverflowError" in detail and "days=1000000000" in detail and "999999999" in (case.get("value", "") + case.get("text", "")):
+        return True
+    # (c) the same overflow swallowed by an enclosing union/optional: the value holds a timedelta
+    #     within float rounding (7.8 ms) of timedelta.max
+    import re
+    for m in re.finditer(r"timedelta\(days=999999999, seconds=86399, microseconds=(\d+)\)", case.get("value", "")):
+        if int(m.group(1)) >= 992187 and clause in ("unmarshal-succeeds", "round-trip", "union-fixpoint", "wire-round-trip", "decode-encode"):
+            return True
+    return False
